@@ -27,12 +27,12 @@ func (b *batch) Put(key, value []byte) error {
 	copied := make([]byte, len(value))
 	copy(copied, value)
 
-	b.writeOps = append(b.writeOps, writeOp{key: key, value: copied})
+	b.writeOps = append(b.writeOps, writeOp{key: append([]byte(nil), key...), value: copied})
 	return nil
 }
 
 func (b *batch) Delete(key []byte) error {
-	b.writeOps = append(b.writeOps, writeOp{isDelete: true, key: key})
+	b.writeOps = append(b.writeOps, writeOp{isDelete: true, key: append([]byte(nil), key...)})
 	return nil
 }
 
